@@ -109,6 +109,22 @@ def oracle_naming(case):
                 fails.append({'what': f'{kind}: statistic attached to a population name changed', 'statistic': k,
                               'original': v, 'variant': got[k2], 'variant_spec': s2})
                 break
+    # the object handed on as a copy (what a worker process or a saved file receives) after ONE statistic has been computed:
+    # statistics not yet computed must still be attached to the right population names
+    for kind, s2, mapping in [('original', spec, {p: p for p in pops})] + variants[:1]:
+        for how in ('deepcopy', 'json'):
+            c0 = build.coalescent(s2)
+            _ = c0.tree_height.mean
+            c1 = copy.deepcopy(c0) if how == 'deepcopy' else pg.Coalescent.from_json(c0.to_json())
+            for p in pops:
+                q = mapping[p]
+                n += 1
+                x = [c1.tree_height.demes[q].mean, c1.total_branch_length.demes[q].mean, c1.tree_height.var]
+                y = [base[f'th.demes[{p}].mean'], base[f'tbl.demes[{p}].mean'], base['th.var']]
+                if not relv(x, y, 1e-9):
+                    fails.append({'what': f'{kind} configuration handed on by {how} after one statistic was computed: statistics of the copy are attached to other populations',
+                                  'population': q, 'copy': x, 'original': y, 'spec': s2})
+                    break
     return fails, n, base
 
 
@@ -222,6 +238,28 @@ def oracle_accumulation(case):
             if np.any(np.diff(zs) < -1e-9 * np.maximum(1.0, np.abs(zs[1:]))):
                 fails.append({'what': 'raw accumulation curve of a non-negative reward decreases', 'dist': dist, 'k': k,
                               'ts': srt.tolist(), 'curve': zs.tolist()})
+    # a demography that is queried, then extended by add_event INSIDE an epoch that was already looked up, then used again:
+    # the default horizon and the moments must be those of the demography built at once (one-population size change that
+    # slows coalescence down, so a stale horizon truncates the moments)
+    if spec.get('end_time') is None and not spec.get('start_time'):
+        pops_ = [p for p, _ in spec['n_items']]
+        p0 = pops_[0]
+        bs_ = sorted({float(t) for dd in spec['pop_sizes'].values() for t in dd})
+        t_new = bs_[-1] + 0.75
+        first = build.coalescent(spec)
+        _ = first.tree_height.mean, float(first.tree_height.cdf(t_new + 1.0))
+        dem = first.demography
+        dem.add_event(pg.PopSizeChange(pop=p0, time=t_new, size=32.0))
+        second = pg.Coalescent(n=first.lineage_config.lineage_dict, model=first.model, demography=dem, parallelize=False)
+        ev = dict(type='PopSizeChange', pop=p0, time=t_new, size=32.0)
+        ref = build.coalescent(dict(spec, events=list(spec.get('events') or []) + [ev]))
+        for dist in ('tree_height', 'total_branch_length'):
+            n += 1
+            x, y = getattr(second, dist).mean, getattr(ref, dist).mean
+            if not rel(x, y, 1e-9):
+                fails.append({'what': 'a demography extended by add_event after it had been queried gives another mean than the same demography built at once',
+                              'dist': dist, 'after_add_event': x, 'built_at_once': y, 'event': ev,
+                              't_max_after_add_event': float(second.tree_height.t_max), 't_max_built_at_once': float(ref.tree_height.t_max)})
     # end-time routes
     T = case['T']
     for dist in ('tree_height', 'total_branch_length'):
@@ -578,9 +616,33 @@ def oracle_routes(case):
     return fails, n, {}
 
 
+# ------------------------------------------------------------------------------------------ C06 (shared configuration objects)
+def oracle_shared_configs(case):
+    """One LocusConfig / model / Demography object handed to several Coalescents in a row: each Coalescent must give what a
+    Coalescent with freshly built configuration objects gives (configuration objects are inputs, not scratch space)"""
+    fails, n = [], 0
+    r, nu = case['r'], case['n_unlinked']
+
+    def stats(c):
+        cov = np.array(c.tree_height.loci.cov)
+        return [c.tree_height.mean, c.tree_height.loci[0].mean, float(cov[0, 1]), float(cov[0, 0]), c.total_branch_length.loci[1].mean]
+    shared = pg.LocusConfig(n=2, n_unlinked=nu, recombination_rate=r)
+    for nn in case['sample_sizes']:
+        a = stats(pg.Coalescent(n=nn, loci=shared, parallelize=False))
+        b = stats(pg.Coalescent(n=nn, loci=pg.LocusConfig(n=2, n_unlinked=nu, recombination_rate=r), parallelize=False))
+        n += 1
+        if not relv(a, b, 1e-10):
+            fails.append({'what': 'a LocusConfig object used for several Coalescents gives other two-locus statistics than a fresh LocusConfig',
+                          'sample_size': nn, 'sample_sizes_in_order': case['sample_sizes'], 'shared': a, 'fresh': b})
+    if (shared.n_unlinked, shared.recombination_rate) != (nu, r):
+        fails.append({'what': 'a LocusConfig object was altered by the Coalescents it was given to',
+                      'n_unlinked': shared.n_unlinked, 'recombination_rate': shared.recombination_rate, 'expected': [nu, r]})
+    return fails, n, {}
+
+
 ORACLES = {'naming': oracle_naming, 'scaling': oracle_scaling, 'accumulation': oracle_accumulation,
            'identities': oracle_identities, 'marginals': oracle_marginals, 'projection': oracle_projection,
-           'routes': oracle_routes}
+           'routes': oracle_routes, 'shared_configs': oracle_shared_configs}
 
 
 def main():
